@@ -656,10 +656,15 @@ func ToEntry(n Node) (e *Entry) {
 		if g == nil {
 			return newError(n, "unknown group: %s", s.Name)
 		}
+		if ms.expandingGrouping[g] {
+			return newError(n, "grouping %s uses itself", g.Name)
+		}
+		ms.expandingGrouping[g] = true
 		// We need to return a duplicate so we resolve properly
 		// when the group is used in multiple locations and the
 		// grouping has a leafref that references outside the group.
 		e = ToEntry(g).dup()
+		delete(ms.expandingGrouping, g)
 		addExtraKeywordsToLeafEntry(n, e)
 		return e
 	}
